@@ -61,6 +61,12 @@ AMBIENT = {('os', 'listdir'), ('os', 'walk'), ('os', 'scandir'), ('glob', 'glob'
            ('random', '*'), ('tempfile', '*'), ('socket', 'gethostname'), ('getpass', 'getuser'),
            ('platform', '*'), ('*', 'iterdir'), ('*', 'rglob'), ('*', 'getmtime'), ('*', 'getctime')}
 AMBIENT_BUILTINS = {'id', 'hash', 'vars', 'globals', 'locals'}
+# calls that look at what the file system holds (C12: what the output directory held before the run must not reach the
+# bytes written into it): (receiver, function); `open(..)` is classified by its mode in `_fs_read`
+FS_STATE = {('path', 'exists'), ('path', 'lexists'), ('path', 'isfile'), ('path', 'isdir'), ('path', 'islink'),
+            ('path', 'getsize'), ('path', 'getatime'), ('path', 'samefile'), ('os', 'stat'), ('os', 'lstat'),
+            ('os', 'access'), ('os', 'readlink'), ('filecmp', '*'), ('*', 'read_text'), ('*', 'read_bytes'),
+            ('*', 'is_file'), ('*', 'is_dir'), ('*', 'samefile')}
 EMIT_PREFIXES = ('emit', 'generate_multiline_list', 'output_to_relative_path')
 
 
@@ -629,6 +635,27 @@ def _identity_key_only(call):
     return False
 
 
+def _fs_read(call):
+    """(call, detail) when the call reads the state of the file system, else None.
+    `open(path[, mode])`: mode absent -> ('open', 'r'); a literal mode that reads or updates ('r', '+') or may find
+    the file there ('a', 'x') -> ('open', mode); a literal 'w'/'wb' (create or truncate: what was there is gone) is not
+    a read; a mode that is not a literal -> ('open', '<mode: source text>'), to be accounted for by hand."""
+    name = _callee(call)
+    if name == 'open' and (isinstance(call.func, ast.Name) or _recv_name(call.func.value) in ('io', 'codecs')):
+        mode = call.args[1] if len(call.args) > 1 else next((k.value for k in call.keywords if k.arg == 'mode'), None)
+        if mode is None:
+            return ('open', 'r')
+        if isinstance(mode, ast.Constant) and isinstance(mode.value, str):
+            m = mode.value
+            return None if (m.startswith('w') and '+' not in m) else ('open', m)
+        return ('open', '<mode: %s>' % _src(mode, 40))
+    if isinstance(call.func, ast.Attribute):
+        mod = _recv_name(call.func.value)
+        if (mod, name) in FS_STATE or (mod, '*') in FS_STATE or ('*', name) in FS_STATE:
+            return ('%s.%s' % (mod, name), _src(call.args[0], 50) if call.args else '')
+    return None
+
+
 def _clear_position(fn, call):
     """Where in the function the `clear()` sits: 'first-call' when it is a statement of the function body itself and
     no earlier statement of the body contains any call (so nothing that could register an import, or fail, runs
@@ -647,12 +674,22 @@ def scan_extra(repo):
       -- `_imported_namespaces.items()` inside `get_imported_namespaces` (which sorts) is the one expected entry
     * ambient: calls whose result depends on the process / machine / clock (os.listdir, time, random, id, hash, ..)
       outside `__hash__`; `id(x)` used purely as a membership key (`id(x) in seen`, `seen.add(id(x))`) is not one
-    * clears: functions that call `<..>.import_tracker.clear()`, with the position of the call (`_clear_position`)"""
-    adhoc, byname, ambient, clears = set(), [], [], []
+    * clears: functions that call `<..>.import_tracker.clear()`, with the position of the call (`_clear_position`)
+    * fsreads: calls that look at what the file system holds (`_fs_read`): existence / size / time tests and every
+      `open` that is not a plain create-or-truncate
+    * modes: every explicit `mode` handed to `output_to_relative_path` and the default of its parameter"""
+    adhoc, byname, ambient, clears, fsreads, modes = set(), [], [], [], [], []
     for rel in scanned_files(repo):
         tree = _parse(repo, rel)
         _set_parents(tree)
         for q, fn, _encl in _functions(tree):
+            if fn.name == 'output_to_relative_path':
+                names = [a.arg for a in fn.args.args]
+                if 'mode' in names:
+                    i = names.index('mode') - (len(names) - len(fn.args.defaults))
+                    d = fn.args.defaults[i] if i >= 0 else None
+                    modes.append((rel, q, '<default>', d.value if isinstance(d, ast.Constant) and isinstance(
+                        d.value, str) else '<no literal default>'))
             nested = {n for n in ast.walk(fn) if isinstance(n, (ast.FunctionDef, ast.AsyncFunctionDef)) and n is not fn}
             skip = set()
             for nf in nested:
@@ -669,6 +706,15 @@ def scan_extra(repo):
                     if name == 'clear' and isinstance(n.func, ast.Attribute) \
                             and _recv_name(n.func.value) == 'import_tracker':
                         clears.append((rel, q, _clear_position(fn, n)))
+                    if name == 'output_to_relative_path':
+                        # the mode the file is opened with, when one is given (the default is recorded below)
+                        mode = n.args[1] if len(n.args) > 1 else next((k.value for k in n.keywords if k.arg == 'mode'), None)
+                        if mode is not None:
+                            modes.append((rel, q, _src(n.args[0], 50) if n.args else '', mode.value if isinstance(
+                                mode, ast.Constant) and isinstance(mode.value, str) else '<not a literal: %s>' % _src(mode, 40)))
+                    fr = _fs_read(n)
+                    if fr is not None:
+                        fsreads.append((rel, q, fr[0], fr[1]))
                     if isinstance(n.func, ast.Attribute):
                         mod = _recv_name(n.func.value)
                         if (mod, name) in AMBIENT or (mod, '*') in AMBIENT or ('*', name) in AMBIENT:
@@ -690,7 +736,56 @@ def scan_extra(repo):
                     if isinstance(base, ast.Attribute) and base.attr in BY_NAME_DICTS:
                         byname.append((rel, q, base.attr))
     return dict(adhoc=sorted(adhoc), byname=sorted(set(byname)), ambient=sorted(set(ambient)),
-                clears=sorted(set(clears)))
+                clears=sorted(set(clears)), fsreads=sorted(set(fsreads)), modes=sorted(set(modes)))
+
+
+_WRITE_METHODS = {'add', 'append', 'extend', 'insert', 'update', 'setdefault', 'pop', 'popitem', 'remove', 'discard',
+                  'clear', 'sort', 'reverse', 'register', 'register_import'}
+_ITER_METHODS = {'items', 'keys', 'values', 'copy'}
+
+
+def scan_state_uses(repo, state):
+    """How every class-level container of `state` [(file, class, attr)] is used, wherever `<expr>.<attr>` occurs in the
+    scanned files outside the class-body assignment that creates it: (file, function, attr, use, detail) with use
+    (before the colon) / detail (after it) one of
+    `get` (`.get(..)`), `index` (`x[..]` read), `in` (membership test), `write:<how>` (subscript store / del /
+    augmented assignment / rebinding / a mutating method), `iterate:<how>` (for / comprehension / `.items()` .. /
+    passed to list() sorted() ..), `other:<source>`."""
+    names = {a for _f, _c, a in state}
+    uses = []
+    for rel in scanned_files(repo):
+        tree = _parse(repo, rel)
+        _set_parents(tree)
+        for q, fn, _encl in _functions(tree):
+            for n in ast.walk(fn):
+                if not (isinstance(n, ast.Attribute) and n.attr in names):
+                    continue
+                par = getattr(n, '_parent', None)
+                use = None
+                if isinstance(n.ctx, (ast.Store, ast.Del)):
+                    use = 'write:rebind'
+                elif isinstance(par, ast.Attribute) and isinstance(getattr(par, '_parent', None), ast.Call) \
+                        and par._parent.func is par:
+                    m = par.attr
+                    use = 'get' if m == 'get' else 'write:' + m if m in _WRITE_METHODS else \
+                        'iterate:' + m if m in _ITER_METHODS else 'other:.%s(..)' % m
+                elif isinstance(par, ast.Subscript) and par.value is n:
+                    use = 'index' if isinstance(par.ctx, ast.Load) else 'write:subscript'
+                elif isinstance(par, ast.AugAssign) and par.target is n:
+                    use = 'write:augmented'
+                elif isinstance(par, ast.Compare) and n in par.comparators \
+                        and all(isinstance(o, (ast.In, ast.NotIn)) for o in par.ops):
+                    use = 'in'
+                elif isinstance(par, (ast.For, ast.comprehension)) and par.iter is n:
+                    use = 'iterate:for'
+                elif isinstance(par, ast.Call) and n in par.args and _callee(par) in (
+                        'list', 'tuple', 'sorted', 'set', 'dict', 'enumerate', 'iter', 'len', 'frozenset'):
+                    use = 'iterate:%s()' % _callee(par) if _callee(par) != 'len' else 'other:len()'
+                else:
+                    use = 'other:' + _src(par if par is not None else n, 50)
+                cat, _, detail = use.partition(':')
+                uses.append((rel, q, n.attr, cat, detail))
+    return sorted(set(uses))
 
 
 def _row4(r):
@@ -706,6 +801,8 @@ def set_iteration_sites(repo):
         'def setIterSiteSrc : List String := %s' % lean_list(lean_str(x) for x in r['docs']),
         'def classMutableState : List (String × String × String) := %s' % lean_list(
             '(%s, %s, %s)' % tuple(lean_str(y) for y in x) for x in r['state']),
+        'def classStateUses : List (String × String × String × String × String) := %s' % lean_list(
+            _rowN(x) for x in scan_state_uses(repo, r['state'])),
         'def setReturningFuncs : List String := %s' % lean_list(lean_str(x) for x in r['funcs']),
         'def setTypedAttrs : List String := %s' % lean_list(lean_str(x) for x in r['attrs']),
     ])
@@ -723,6 +820,10 @@ def determinism_side_tables(repo):
         'def byNameDictIterations : List (String × String × String) := %s' % lean_list(_rowN(a) for a in x['byname']),
         'def ambientSources : List (String × String × String) := %s' % lean_list(_rowN(a) for a in x['ambient']),
         'def importTrackerClearSites : List (String × String × String) := %s' % lean_list(_rowN(a) for a in x['clears']),
+        'def fileSystemReads : List (String × String × String × String) := %s' % lean_list(
+            _rowN(a) for a in x['fsreads']),
+        'def outputFileModes : List (String × String × String × String) := %s' % lean_list(
+            _rowN(a) for a in x['modes']),
     ])
 
 
